@@ -435,7 +435,7 @@ def stream_exhaustive(ctx, driver=True):
                     pruned += 1
                     continue
                 chunk.append((' '.join(names), build(names), {'x': 0}, ['len%d' % len(names)]))
-                if len(chunk) >= 40000:
+                if len(chunk) >= 20000:
                     run_chunk(ctx, 'exec-exhaustive', st, chunk, MAX_EXH, 400, jumps_taken_possible)
                     chunk = []
         if chunk:
@@ -455,20 +455,22 @@ def stream_random(ctx, n, driver=True, name='exec-random'):
                     'mutations (duplicate labels, labels dropped, dangling jumps, jumps to labels of other lists, stray returns, cut at 40), '
                     'validated; x initial globals of all value kinds; maxStatements=300; same comparison and oracles; non-trivial = one '
                     'list of the model has a jump and a label statement')
-    chunk = []
-    for ix, case in enumerate(load_corpus()):
-        chunk.append((f'corpus{ix}', case['model'], case.get('globals', {}), ['corpus']))
-    for ix in range(n):
-        model, tags = random_model(rng)
-        if has_includes(model['statements']):
-            continue
-        chunk.append((['random', ix, progen.canon_script(model, with_fid=False)], model, progen.random_globals(rng), tags))
     saved_driver = ctx.driver
     if not driver:
         ctx.driver = None
     try:
-        for lo in range(0, len(chunk), 20000):
-            run_chunk(ctx, name, st, chunk[lo:lo + 20000], 300, 3000, jumps_taken_possible)
+        chunk = [(f'corpus{ix}', case['model'], case.get('globals', {}), ['corpus']) for ix, case in enumerate(load_corpus())]
+        for ix in range(n):
+            model, tags = random_model(rng)
+            if has_includes(model['statements']):
+                continue
+            # the case id is the compact JSON text of the model (models are big: never keep many of them alive)
+            chunk.append((json.dumps(['random', ix, model], separators=(',', ':')), model, progen.random_globals(rng), tags))
+            if len(chunk) >= 400:
+                run_chunk(ctx, name, st, chunk, 300, 3000, jumps_taken_possible)
+                chunk = []
+        if chunk:
+            run_chunk(ctx, name, st, chunk, 300, 3000, jumps_taken_possible)
     finally:
         ctx.driver = saved_driver
 
